@@ -21,6 +21,11 @@ pub struct PutqStream {
     started_ok: bool,
     me: SocketAddrV4,
     case_no: u64,
+    /// reference bookkeeping, independent of the socket: when the requests went out, whether they were
+    /// ever seen older than the timeout, and which nodes have already answered from their own address
+    start_at: u64,
+    expired_seen: bool,
+    genuine_done: Vec<bool>,
 }
 
 fn put_request(kind: &str) -> PutRequestSpecific {
@@ -56,7 +61,7 @@ fn show_err(e: &PutError) -> String {
 
 impl PutqStream {
     pub fn new() -> Self {
-        PutqStream { socket: None, query: None, mutable: false, sent: vec![], acks: 0, codes: vec![], answered: vec![], started_ok: false, me: SocketAddrV4::new(Ipv4Addr::new(45, 0, 0, 9), 6881), case_no: 0 }
+        PutqStream { socket: None, query: None, mutable: false, sent: vec![], acks: 0, codes: vec![], answered: vec![], started_ok: false, me: SocketAddrV4::new(Ipv4Addr::new(45, 0, 0, 9), 6881), case_no: 0, start_at: 0, expired_seen: false, genuine_done: vec![] }
     }
     fn view(&self) -> String {
         let (s, errs, n) = self.query.as_ref().expect("query").verif_view();
@@ -85,11 +90,17 @@ impl Stream for PutqStream {
         self.codes.clear();
         self.answered.clear();
         self.started_ok = false;
+        self.start_at = 0;
+        self.expired_seen = false;
+        self.genuine_done.clear();
     }
 
     fn exec(&mut self, op: &str, out: &mut Out) -> String {
         let t: Vec<&str> = op.split(' ').collect();
         let socket = self.socket.as_mut().expect("socket");
+        if self.started_ok && verif::now_ns().saturating_sub(self.start_at) >= socket.verif_inflight().3 {
+            self.expired_seen = true;
+        }
         match t.as_slice() {
             // start <n closest with token> <n closest without token (interleaved first)>
             ["start", nw, nwo] => {
@@ -129,6 +140,9 @@ impl Stream for PutqStream {
                             shown.push(format!("{}/{}", addr_s(to), hexz(&tok)));
                         }
                         self.answered = vec![false; self.sent.len()];
+                        self.genuine_done = vec![false; self.sent.len()];
+                        self.start_at = verif::now_ns();
+                        self.expired_seen = false;
                         // oracle: only token-bearing nodes, each with its own token
                         let expect: Vec<(SocketAddrV4, Vec<u8>)> = closest.iter().take(255).chain((0..0).map(|_| &closest[0])).filter_map(|n| n.token().map(|t| (n.address(), t.to_vec()))).collect();
                         let got: Vec<(SocketAddrV4, Vec<u8>)> = self.sent.iter().map(|(a, t, _)| (*a, t.clone())).collect();
@@ -155,6 +169,13 @@ impl Stream for PutqStream {
                 let genuine_to = to;
                 let to = if spoof { SocketAddrV4::new(*to.ip(), to.port().wrapping_add(1)) } else { to };
                 let was_live = socket.inflight(&tid);
+                // by the property's own reading: the addressed node answers for the first time, in time
+                let ref_live = !spoof && !self.genuine_done.get(i).copied().unwrap_or(true) && !self.expired_seen;
+                if !spoof {
+                    if let Some(d) = self.genuine_done.get_mut(i) {
+                        *d = true;
+                    }
+                }
                 let mt = if *what == "ok" {
                     MessageType::Response(ResponseSpecific::Ping(PingResponseArguments { responder_id: Id::from_bytes([9; 20]).expect("id") }))
                 } else {
@@ -191,6 +212,10 @@ impl Stream for PutqStream {
                     Ok(0) => {
                         if !spoof && was_live {
                             out.violation("C09", "genuine-rejected", format!("the reply of {genuine_to} to live request {tid} was dropped"));
+                        }
+                        if ref_live && !was_live {
+                            out.violation("C09", "genuine-rejected", format!("the first reply of {genuine_to} to request {tid}, in time, was dropped: something else consumed the request"));
+                            out.violation("C08", if *what == "ok" { "ack-dropped" } else { "error-dropped" }, format!("the {} of {genuine_to} reached the socket in time but was not counted for the put", if *what == "ok" { "acknowledgement" } else { "error reply" }));
                         }
                         out.count(if spoof { "reply-spoof-dropped" } else { "reply-late-or-duplicate-dropped" });
                         "dropped".into()
@@ -401,6 +426,22 @@ pub fn run(out: &mut Out, seed: u64, thorough: bool, replay: Option<&str>) {
         out.run(&mut s, "adv 60000000000".into());
         out.run(&mut s, "check".into());
         out.mark_distinct(fnv(format!("late{round}").as_bytes()) ^ rng.0);
+    }
+    // ---- every request is "answered" from a wrong address first, then acknowledged by the addressed node
+    for kind in ["imm", "mut", "ann", "sann"] {
+        for n in [1usize, 3] {
+            case(out, &mut s, kind, 0, 0);
+            out.run(&mut s, format!("start {n} 0"));
+            for i in 0..n {
+                out.run(&mut s, format!("reply {i} {} spoof", if i % 2 == 0 { "ok" } else { "203" }));
+                out.run(&mut s, "adv 100000000".into());
+                out.run(&mut s, format!("reply {i} ok"));
+                out.run(&mut s, "check".into());
+            }
+            out.run(&mut s, "adv 60000000000".into());
+            out.run(&mut s, "check".into());
+            out.mark_distinct(fnv(format!("spoofed{kind}{n}").as_bytes()));
+        }
     }
     // ---- nothing to send to: no nodes, or no node carries a token
     for (nw, nwo) in [(0usize, 0usize), (0, 3)] {
